@@ -4,9 +4,12 @@
      P <text>     lex + parse with the generated table → kind tree | REJECT
      S <text>     lex + parse with the hand-written reference table → kind tree | REJECT
      L <digits>   the integer-literal rule → nat n | posNegMax | overflow
+     C <text>     lex + parse as a comma list (`ExprList`) with the generated table and the generated recursion → kind tree | REJECT
+     D <text>     the same with the reference table and the reference associativity of the comma
 -/
 import UtapModel.Model.Sexp
 import UtapModel.Model.ExprTable
+import UtapModel.Model.ExprList
 import UtapModel.Spec.OperatorTable
 open UtapModel UtapModel.Pratt UtapModel.ExprTable UtapModel.ExprGrammar
 
@@ -48,6 +51,19 @@ def parseWith (D : Data) (text : String) : String :=
     | some e => (toK D e).str
     | none => "REJECT"
 
+/-- the `kind_t` tree of a comma list: `expr_comma()` builds COMMA(l, r) -/
+partial def listK (D : Data) : CTree → KTree
+  | .one e => toK D e
+  | .comma l r => .node "COMMA" [] [listK D l, listK D r]
+
+def parseListWith (D : Data) (leftRec : Bool) (text : String) : String :=
+  match lexExpr text with
+  | none => "REJECT"
+  | some ts =>
+    match parseList D.tbl leftRec ts with
+    | some t => (listK D t).str
+    | none => "REJECT"
+
 def stepLine (line : String) : String :=
   let line := String.ofList (line.toList.reverse.dropWhile (fun c => c == '\n' || c == '\r')).reverse
   match line.splitOn "\t" with
@@ -64,6 +80,8 @@ def stepLine (line : String) : String :=
         "\t".intercalate [toString w, tmin, tfull, (toK genData e).str, parseWith genData tmin, parseWith genData tfull]
   | ["P", text] => parseWith genData text
   | ["S", text] => parseWith UtapModel.Spec.specData text
+  | ["C", text] => parseListWith genData exprListLeftRec text
+  | ["D", text] => parseListWith UtapModel.Spec.specData UtapModel.Spec.commaLeftAssoc text
   | ["L", ds] =>
     match lexNum ds.toList with
     | .nat n => "nat " ++ toString n
